@@ -285,6 +285,37 @@ Example C12_sdef_example :
   /\ lr_run lr_param_only (classes (sdef_toks ex_sdef)) = LRAccept.
 Proof. repeat split; vm_compute; reflexivity. Qed.
 
+(* ------------------------------------------------------------------ 6b. from the text to the verdict, inside the model:
+   the generated regular expressions of the lexer ([tokenize]) give the example shapes exactly the tokens [gen] claims,
+   and the generated automaton accepts them.  (For every *generated* sentence the harness makes the same two
+   comparisons with the extracted model and with the real lexer and parser.) *)
+Example C12_lexer_gives_the_claimed_tokens :
+  tokenize LCell (render (cell_toks ex_cell)) = LexOk (cell_toks ex_cell)
+  /\ tokenize LSurface (render (surf_toks ex_surf)) = LexOk (surf_toks ex_surf)
+  /\ tokenize LData (render (tally_toks ex_tally)) = LexOk (tally_toks ex_tally)
+  /\ tokenize LData (render (mat_card_toks ex_mat)) = LexOk (mat_card_toks ex_mat)
+  /\ tokenize LData (render (sdef_toks ex_sdef)) = LexOk (sdef_toks ex_sdef).
+Proof. repeat split; vm_compute; reflexivity. Qed.
+Example C12_text_to_verdict :
+  verdict_of_text LCell lr_cell ("12 3 -2.5 (1:-2) #7 $ shell" ++ nl ++ "     +4 IMP:n,p=1 *fill=5 (1 R 6.02+23) nonu 1") = VAccept
+  /\ verdict_of_text LSurface lr_surface "*5 -9 GQ 1 2r 2i 4 2j -.5E-3" = VAccept
+  /\ verdict_of_text LData lr_tally "+f6:n (1 2) 3 T" = VAccept
+  /\ verdict_of_text LData lr_material "m1 1001.80c 1 8016 1 elib=03e" = VAccept
+  /\ verdict_of_text LData lr_param_only "sdef" = VAccept
+  /\ verdict_of_text LCell lr_cell "1 0 (1:2)#3 fill=1 ( 1 2 3) imp:u,c=1" = VAccept
+  /\ verdict_of_text LSurface lr_surface "1 so 1234.56e1 5.+3" = VAccept.
+Proof. repeat split; vm_compute; reflexivity. Qed.
+(* and texts of G_core that are not accepted (open findings) *)
+Theorem C12_text_rejected_refuted :
+  verdict_of_text LData lr_data "mode n u" <> VAccept
+  /\ verdict_of_text LData lr_data "mode n /" <> VAccept
+  /\ verdict_of_text LData lr_data "mode n c" <> VAccept
+  /\ verdict_of_text LData lr_data "e4 1 2.5m" <> VAccept
+  /\ verdict_of_text LData lr_data "e4 1 2m r" <> VAccept
+  /\ verdict_of_text LCell lr_cell "1 0 -1 imp:|=1" <> VAccept.
+Proof. repeat split; vm_compute; discriminate. Qed.
+Print Assumptions C12_text_rejected_refuted.
+
 (* ------------------------------------------------------------------ 7. G_core sentences the generated automaton
    rejects.  The class lists are the classes the *real* lexer gives these texts (the harness replays each text
    through the real lexer and the real parser on every run and compares). *)
